@@ -1,4 +1,228 @@
-import OtelVerif.Model.C08
-/-! C08 property theorems (stub) -/
+import OtelVerif.Lemmas.C08
+import OtelVerif.Gen.OtlpSchema
+/-!
+# C08 — OTLP protobuf and JSON codecs are lossless, consistent and total
+
+Theorems about the generic codec model of `Model/C08.lean`, for EVERY well-formed schema, every conforming
+value (any nesting depth, any repetition count, extreme integers, NaN/Inf bit patterns) and every byte string —
+then instantiated at the schema regenerated from `/repo` (`Gen/OtlpSchema.lean`).
+-/
 namespace OtelVerif.C08
+open OtelVerif.Wire OtelVerif.Proto
+
+abbrev otlp : Schema := Gen.OtlpSchema.schema
+abbrev otlpD : List Val := defaults otlp
+
+/-! ## the regenerated schema is well formed (tie obligations over `Gen`) -/
+
+set_option maxRecDepth 100000 in
+/-- distinct legal field numbers per message, admissible (type, cardinality) pairs, one-of alternatives found by
+their number, and `defaults` is the fixed point of "`&T{}` with every `nullable=false` message filled in". -/
+theorem C08_schema_wf : WF otlp otlpD = true := by decide
+
+/-! ## size -/
+
+/-- `Size()` equals the length of `Marshal()` — for every schema and EVERY value tree (no conformance needed). -/
+theorem C08_size (S : Schema) (m : Nat) (v : Val) : size S m v = (encode S m v).length :=
+  sz_eq_length S _ v
+
+/-! ## protobuf round trip -/
+
+theorem wf_slots {S : Schema} {D : List Val} (h : WF S D = true) (m : Nat) :
+    slotsOkFrom (S.slots m) (S.slots m) 0 = true := by
+  simp only [WF, Bool.and_eq_true, List.all_eq_true] at h
+  simp only [Schema.slots]
+  cases hm : S.msgs[m]? with
+  | none => simp [slotsOkFrom]
+  | some msg => simpa using h.1.1 msg (List.mem_of_getElem? hm)
+
+theorem wf_defaults {S : Schema} {D : List Val} (h : WF S D = true) (sub : Nat) :
+    D.getD sub .nil = msgDefault D (S.slots sub) := by
+  simp only [WF, Bool.and_eq_true, DefaultsOk, beq_iff_eq, defaultsStep] at h
+  have hD := h.1.2
+  simp only [Schema.slots]
+  have : D[sub]? = (S.msgs[sub]?).map (fun m => msgDefault D m.slots) := by
+    conv => lhs; rw [← hD]
+    simp
+  rw [List.getD_eq_getElem?_getD, this]
+  cases S.msgs[sub]? <;> simp [msgDefault, Val.ofList]
+
+/-- **Lossless (protobuf).** For every well-formed schema and every conforming value, decoding what the marshaler
+produced yields exactly the original value.  (`hlen`: a Go slice is shorter than 2^63 bytes.) -/
+theorem C08_pb_roundtrip (S : Schema) (D : List Val) (hwf : WF S D = true) (m : Nat) (v : Val)
+    (hc : Conforms S m v) (hlen : (encode S m v).length < 2 ^ 63) :
+    decode S D m (encode S m v) = some v := by
+  have h := rt_all S D (wf_slots hwf) (wf_defaults hwf) (.slots (S.slots m)) v m [] [] [] (by simp) rfl hc hlen
+  simp only [List.nil_append, List.append_nil] at h
+  rw [decode, encode, wf_defaults hwf m, msgDefault, h, decMsg_nil,
+    ofList_toList v (conf_slots_proper S false v _ hc)]
+
+/-- … in particular for the schema regenerated from the Go sources of `/repo`, all signals and wrappers. -/
+theorem C08_pb_roundtrip_otlp (m : Nat) (v : Val) (hc : Conforms otlp m v) (hlen : (encode otlp m v).length < 2 ^ 63) :
+    decode otlp otlpD m (encode otlp m v) = some v :=
+  C08_pb_roundtrip otlp otlpD C08_schema_wf m v hc hlen
+
+/-- consequently the marshaler is injective on conforming values (two different payloads never share an encoding) -/
+theorem C08_pb_injective (S : Schema) (D : List Val) (hwf : WF S D = true) (m : Nat) (v w : Val)
+    (hv : Conforms S m v) (hw : Conforms S m w) (hl : (encode S m v).length < 2 ^ 63)
+    (he : encode S m v = encode S m w) : v = w := by
+  have h1 := C08_pb_roundtrip S D hwf m v hv hl
+  have h2 := C08_pb_roundtrip S D hwf m w hw (he ▸ hl)
+  rw [he, h2] at h1
+  exact (Option.some.inj h1).symm
+
+/-- **Fixed point (partial).** Whatever conforming value a decode returns re-encodes to a fixed point: decoding the
+re-encoding returns the same value, and encoding that again the same bytes.  PARTIAL: that the decoder's result is
+canonical (`Conforms`, up to the `-0.0` of plain double fields) is checked on the implementation by the harness
+(`C08/total/not-a-fixpoint-*`) and on the model by the differential, not proved here.  Totality of the model decoder
+is by construction (`decMsg` is a total terminating function on every byte list); absence of panics/hangs of the Go
+code is observed by the harness on the malformed streams. -/
+theorem C08_total_fixpoint_partial (S : Schema) (D : List Val) (hwf : WF S D = true) (m : Nat) (b : Bytes) (v : Val)
+    (_hd : decode S D m b = some v) (hc : Conforms S m v) (hlen : (encode S m v).length < 2 ^ 63) :
+    decode S D m (encode S m v) = some v ∧
+    ∀ v', decode S D m (encode S m v) = some v' → encode S m v' = encode S m v := by
+  have h := C08_pb_roundtrip S D hwf m v hc hlen
+  exact ⟨h, fun v' hv' => by rw [h] at hv'; rw [← Option.some.inj hv']⟩
+
+/-! ### the full statement fails on the pinned tree: a Go-nil bytes alternative is not written -/
+
+/-- index of `common.AnyValue` in the regenerated schema -/
+def anyValueIdx : Nat := (otlp.msgs.findIdx? (fun m => m.name == "common.AnyValue")).getD 0
+
+/-- what `pcommon.NewValueBytes()` / `Value.SetEmptyBytes()` build: alternative 7 selected, Go-nil slice -/
+def nilBytesValue : Val := .cons (.cons (.num 7) .nil) .nil
+/-- the empty `AnyValue` (`ValueTypeEmpty`) -/
+def emptyValue : Val := .cons .nil .nil
+
+/-- lossless for every shape the public API can build -/
+def C08_pb_roundtrip_full : Prop :=
+  ∀ m v, ApiShape otlp m v → (encode otlp m v).length < 2 ^ 63 → decode otlp otlpD m (encode otlp m v) = some v
+
+set_option maxRecDepth 100000 in
+/-- read off the regenerated schema: `AnyValue` is a single one-of whose alternative 7 is a `bytes` field -/
+theorem anyValue_shape : ∃ g alts a, otlp.slots anyValueIdx = [Slot.oneof g alts] ∧ findAlt alts 7 = some a ∧ a.ty = .bytes := by
+  have h : (match otlp.slots anyValueIdx with
+      | [Slot.oneof _ alts] => (match findAlt alts 7 with | some a => a.ty == .bytes | none => false)
+      | _ => false) = true := by decide
+  split at h
+  · next g alts hs =>
+    split at h
+    · next a ha => exact ⟨g, alts, a, hs, ha, by simpa using h⟩
+    · simp at h
+  · simp at h
+
+theorem nilBytes_encodes_empty : encode otlp anyValueIdx nilBytesValue = [] := by
+  obtain ⟨g, alts, a, hs, _, _⟩ := anyValue_shape
+  rw [encode, hs, nilBytesValue, enc_slots_cons, enc_slots_nil]
+  rw [enc]
+  · rfl
+  · intro k p h; cases h
+
+set_option maxRecDepth 100000 in
+/-- kernel-checked witness: an API-built empty-bytes value and the empty value have the same (empty) encoding, so the
+bytes value comes back as `ValueTypeEmpty`.  Replayed on the real code by corpus case 1 of the harness
+(`C08/pb/roundtrip/oneof-nil-bytes-not-encoded`). -/
+theorem C08_pb_roundtrip_full_fails : ¬ C08_pb_roundtrip_full := by
+  intro h
+  have hshape : ApiShape otlp anyValueIdx nilBytesValue := by
+    obtain ⟨g, alts, a, hs, ha, hty⟩ := anyValue_shape
+    rw [ApiShape, hs, nilBytesValue]
+    simp [conf, ha, hty]
+  have := h anyValueIdx nilBytesValue hshape (by rw [nilBytes_encodes_empty]; decide)
+  rw [nilBytes_encodes_empty, decode, decMsg_nil] at this
+  have hd : otlpD.getD anyValueIdx .nil = emptyValue := by decide
+  rw [hd] at this
+  exact absurd (Option.some.inj this) (by decide)
+
+
+/-! ## JSON -/
+
+def fieldsOf (m : Msg) : List Field :=
+  m.slots.flatMap (fun s => match s with | .one f => [f] | .oneof _ alts => alts)
+
+/-- (message, Go field) pairs whose JSON name or proto name is NOT a `case` label of the message's hand-written reader -/
+def uncovered (S : Schema) : List (String × String) :=
+  S.msgs.flatMap (fun m => (fieldsOf m).filterMap (fun f =>
+    if m.jsonKeys.contains f.json && m.jsonKeys.contains f.orig then none else some (m.name, f.go)))
+
+set_option maxRecDepth 100000 in
+/-- **Every field has its `case`, in both spellings** — a tie obligation over the regenerated reader tables.
+The only fields the JSON readers do not know are the three deprecated scope lists, which the public API cannot set
+(and which `otlp.Migrate*` clears on every decode path).  A reader that forgets a field (as `plog` did for
+`event_name`, `pmetric` for `zero_threshold`) makes this theorem fail to check. -/
+theorem C08_json_cases_cover :
+    uncovered otlp = [("logs.ResourceLogs", "DeprecatedScopeLogs"), ("metrics.ResourceMetrics", "DeprecatedScopeMetrics"),
+      ("trace.ResourceSpans", "DeprecatedScopeSpans")] := by decide
+
+/-- laws of the text-level codecs the JSON theorems rely on (decimal text of naturals) -/
+structure DecLaws (T : Txt) : Prop where
+  undec_dec : ∀ n, T.undec (T.dec n) = some n
+  dec_nosign : ∀ n ds, T.dec n ≠ 45 :: ds
+
+theorem parseInt_dec (T : Txt) (h : DecLaws T) (signed : Bool) (w n : Nat)
+    (hn : n < (if signed then 2 ^ (w - 1) else 2 ^ w)) : parseInt T signed w (T.dec n) = some n := by
+  unfold parseInt
+  split
+  · next ds heq => exact absurd heq (h.dec_nosign n ds)
+  · simp [h.undec_dec, hn]
+
+/-- **64-bit integers as strings or as numbers — same result** (`json.ReadInt64/ReadUint64`: the `NumberValue` and the
+`StringValue` branch), for every text. -/
+theorem C08_json_int64_variants (S : Schema) (T : Txt) (ty : Ty) (t : List Nat)
+    (hty : ty = .u64 ∨ ty = .i64 ∨ ty = .fixed64 ∨ ty = .sfixed64) :
+    readLeaf S T ty (.num t) = readLeaf S T ty (.str t) := by
+  rcases hty with h | h | h | h <;> subst h <;> rfl
+
+/-- … and both spellings of a 64-bit value that the marshaler can produce decode to that value. -/
+theorem C08_json_int64_value (S : Schema) (T : Txt) (h : DecLaws T) (n : Nat) (hn : n < 2 ^ 64) :
+    readLeaf S T .u64 (.num (T.dec n)) = some (.num n) ∧ readLeaf S T .u64 (.str (T.dec n)) = some (.num n) := by
+  have := parseInt_dec T h false 64 n (by simpa using hn)
+  simp [readLeaf, this]
+
+/-- **Enum values as numbers or as names — same result** (`json.ReadEnumValue`), for every enum of every schema:
+the name of a value and its decimal number decode to the same stored value. -/
+theorem C08_json_enum_variants (S : Schema) (T : Txt) (h : DecLaws T) (e : Nat) (en : EnumT) (name : String) (val : Nat)
+    (he : S.enums[e]? = some en)
+    (hf : en.values.find? (fun p => str p.1 == str name) = some (name, val)) (hv : val < 2 ^ 31) :
+    readLeaf S T (.enum e) (.str (str name)) = some (.num val) ∧
+    readLeaf S T (.enum e) (.num (T.dec val)) = some (.num val) := by
+  have := parseInt_dec T h true 32 val (by simpa using hv)
+  simp [readLeaf, enumByName, he, hf, this]
+
+set_option maxRecDepth 100000 in
+/-- non-vacuity: in the regenerated schema every enum name is found by `find?` at its own value and all values fit -/
+theorem C08_json_enum_names_ok :
+    otlp.enums.all (fun en => en.values.all (fun p =>
+      (en.values.find? (fun q => str q.1 == str p.1)).map (·.2) == some p.2 && decide (p.2 < 2 ^ 31))) = true := by decide
+
+/-- the full JSON statements; proved at field level above, at message level tied by the byte/value-exact differential
+(`jenc`/`jdec` ops) and the harness oracles (`C08/json/roundtrip/*`, `C08/json/pb-inconsistent/*`).  PARTIAL: the
+message-level induction for `fromJ ∘ toJ` (same shape as `rt_all`) is not written. -/
+def C08_json_roundtrip_full : Prop :=
+  ∀ (T : Txt), DecLaws T → ∀ m v, Conforms otlp m v →
+    ∃ v', fromJson otlp T otlpD m (toJson otlp T m v) = some v' ∧ encode otlp m v' = encode otlp m (canon otlp (.slots (otlp.slots m)) v)
+
+/-! ## non-vacuity: a small schema using every slot discipline, a conforming value with extreme numerics -/
+def S0 : Schema := { msgs := [
+  { name := "t.Inner", slots := [.one { num := 1, go := "A", json := "a", orig := "a", ty := .u64 }], jsonKeys := ["a"] },
+  { name := "t.Outer", slots := [
+      .one { num := 1, go := "N", json := "n", orig := "n", ty := .i32 },
+      .one { num := 2, go := "In", json := "in", orig := "in", ty := .msg 0, card := .req },
+      .one { num := 3, go := "Rs", json := "rs", orig := "rs", ty := .msg 0, card := .rep },
+      .oneof "V" [{ num := 4, go := "S", json := "s", orig := "s", ty := .string }, { num := 7, go := "B", json := "b", orig := "b", ty := .bytes }],
+      .one { num := 9, go := "P", json := "p", orig := "p", ty := .double, card := .packed }],
+    jsonKeys := ["n", "in", "rs", "s", "b", "p"] }], enums := [], roots := [("outer", 1)] }
+
+/-- N = -1, In = {A: 300}, Rs = [{}, {A: 2^64-1}], V = S:"hi", P = [NaN, -0.0] -/
+def v0 : Val := Val.ofList [.num (2 ^ 32 - 1), Val.ofList [.num 300], Val.ofList [Val.ofList [.num 0], Val.ofList [.num (2 ^ 64 - 1)]],
+  Val.ofList [.num 4, .bytes [104, 105]], Val.ofList [.num 0x7FF8000000000001, .num (2 ^ 63)]]
+
+example : WF S0 (defaults S0) = true := by decide
+example : Conforms S0 1 v0 := by
+  simp [Conforms, v0, S0, Schema.slots, Val.ofList, conf, leafOk, scalarOk, packedOk, findAlt]
+example : decode S0 (defaults S0) 1 (encode S0 1 v0) = some v0 :=
+  C08_pb_roundtrip S0 (defaults S0) (by decide) 1 v0
+    (by simp [Conforms, v0, S0, Schema.slots, Val.ofList, conf, leafOk, scalarOk, packedOk, findAlt])
+    (by rw [← C08_size]; simp [size, v0, S0, Schema.slots, Val.ofList, sz, findAlt, leafSize, scalarSize, packedSize, isZero, isScalar, wireType, Val.isCons, sext32]; simp [sov])
+
 end OtelVerif.C08
